@@ -176,12 +176,13 @@ structure State where
   journal : List JEntry
   seq : Nat
   closeReturned : Nat
+  fresh : Option Nat              -- batch just created by newWriteBatch inside writeMessages, its first `add` still to come
 
 def State.init : State :=
   { closed := false, wlock := .free, entered := 0, inflight := 0, enterFalse := 0,
     pwOf := fun _ => none, pws := fun _ => none, qOf := fun _ => none, pwIds := [],
     batches := fun _ => none, batchIds := [], calls := fun _ => none, callIds := [],
-    log := fun _ => [], tps := [], journal := [], seq := 0, closeReturned := 0 }
+    log := fun _ => [], tps := [], journal := [], seq := 0, closeReturned := 0, fresh := none }
 
 inductive Event
   | enter (ok : Bool)
@@ -347,8 +348,10 @@ def stepAdd (cfg : Cfg) (s : State) (pw b c i size : Nat) : Option State :=
        B.full cfg = false ∧ B.nofit cfg size = false ∧
        C.phase = .batching ∧ C.assign[i]? = some P.tp ∧ C.place i = none ∧
        (C.msgs[i]?).map (·.size) = some size ∧
-       (List.range i).all (fun j => C.assign[j]? != some P.tp || (C.place j).isSome) then
+       (List.range i).all (fun j => C.assign[j]? != some P.tp || (C.place j).isSome) ∧
+       (s.fresh = none ∨ s.fresh = some b) then
       some { s with
+        fresh := none,
         batches := upd s.batches b (some (B.push { msg := (c, i), size := size, seq := s.seq })),
         calls := upd s.calls c (some { C with place := upd C.place i (some b) }),
         seq := s.seq + 1 }
@@ -370,7 +373,7 @@ def stepDetach (cfg : Cfg) (s : State) (pw b : Nat) (why : Why) (size : Nat) : O
   | none => none
   | some B =>
     if P.curr = some b ∧ P.pending = none ∧ B.detached = none ∧
-       whyOk cfg s B why size = true then
+       whyOk cfg s B why size = true ∧ s.fresh ≠ some b then
       some { s with
         pws := upd s.pws pw (some { P with curr := none, pending := some b }),
         batches := upd s.batches b (some { B with detached := some why }) }
@@ -468,8 +471,8 @@ def step (cfg : Cfg) (s : State) (e : Event) : Option State :=
     match s.pws pw with
     | none => none
     | some P =>
-      if s.wlock.isCall = true ∧ P.curr = none ∧ P.pending = none ∧ (s.batches b).isNone then
-        some { s with batchIds := s.batchIds ++ [b],
+      if s.wlock.isCall = true ∧ P.curr = none ∧ P.pending = none ∧ (s.batches b).isNone ∧ s.fresh = none then
+        some { s with batchIds := s.batchIds ++ [b], fresh := some b,
                       pws := upd s.pws pw (some { P with curr := some b, nbatches := P.nbatches + 1 }),
                       batches := upd s.batches b (some (Batch.new pw P.tp P.nbatches)) }
       else none
@@ -565,7 +568,7 @@ def step (cfg : Cfg) (s : State) (e : Event) : Option State :=
     match s.calls c with
     | none => none
     | some C =>
-      if s.wlock = .call c ∧ C.phase = .batching ∧ C.placedAll = true ∧ noFullAttached cfg s = true then
+      if s.wlock = .call c ∧ C.phase = .batching ∧ C.placedAll = true ∧ noFullAttached cfg s = true ∧ s.fresh = none then
         some { s with wlock := .free, calls := upd s.calls c (some { C with phase := .batched }) }
       else none
   | .ret c r => stepRet cfg s c r
